@@ -480,3 +480,81 @@ func storeOrdinal(fn *ssa.Function, in ssa.Instruction, f *types.Var) string {
 	}
 	return "#?"
 }
+
+func init() {
+	reg("C04-R7", "own writes: RangeScanWithIndexExecutor.Next never emits the tuple of a row the transaction itself deleted — on every path that takes the ErrSelfDeletedCase branch, a tuple is returned only after another fetch (path-sensitive: nil assignments to the loop variable and the final nil test are followed)", func(w *World, r *Report) {
+		a := w.A()
+		fn := w.Fn("execution/executors", "RangeScanWithIndexExecutor", "Next")
+		lt := w.LockTable()
+		selfDeleted := w.Obj("storage/access", "ErrSelfDeletedCase").(*types.Const)
+		isSDCompare := func(v ssa.Value) (bool, bool) { // (matches, eqlOp)
+			b, ok := v.(*ssa.BinOp)
+			if !ok || (b.Op != token.EQL && b.Op != token.NEQ) {
+				return false, false
+			}
+			isSD := func(x ssa.Value) bool {
+				return DependsOn(x, func(y ssa.Value) bool {
+					c, ok := y.(*ssa.Const)
+					return ok && c.Value != nil && c.Value.Kind() == constant.String && constant.StringVal(c.Value) == constant.StringVal(selfDeleted.Val())
+				})
+			}
+			return isSD(b.X) || isSD(b.Y), b.Op == token.EQL
+		}
+		nSD := 0
+		var issues []string
+		lw := &LockWalk{W: w, Fn: fn}
+		lw.Classify = func(c ssa.CallInstruction, st *LState) (lockOp, string) { return opNone, "" }
+		lw.OnInstr = func(in ssa.Instruction, st *LState) {
+			if InstrCallsObj(a.THGetTuple)(in) {
+				delete(st.held, "tag:self-deleted")
+			}
+		}
+		lw.OnEdge = func(b *ssa.BasicBlock, succ int, st *LState) bool {
+			i := blockIf(b)
+			if i == nil {
+				return true
+			}
+			v, neg := condBase(i.Cond)
+			if m, eql := isSDCompare(v); m {
+				condTrueMeansSD := eql != neg
+				if (succ == 0) == condTrueMeansSD {
+					st.held["tag:self-deleted"] = "W"
+					nSD++
+				}
+				return true
+			}
+			// nil tests of a variable that holds the constant nil on this path
+			bo, ok := v.(*ssa.BinOp)
+			if !ok || (bo.Op != token.EQL && bo.Op != token.NEQ) {
+				return true
+			}
+			isNil := func(x ssa.Value) bool { c, ok := x.(*ssa.Const); return ok && c.IsNil() }
+			var other ssa.Value
+			if isNil(bo.Y) {
+				other = bo.X
+			} else if isNil(bo.X) {
+				other = bo.Y
+			} else {
+				return true
+			}
+			rp := st.root(lt.lockPath(other))
+			if strings.HasPrefix(rp, "const:nil") {
+				condTrueMeansNil := (bo.Op == token.EQL) != neg
+				return (succ == 0) == condTrueMeansNil
+			}
+			return true
+		}
+		lw.OnReturn = func(ret *ssa.Return, st *LState) {
+			if _, tagged := st.held["tag:self-deleted"]; tagged && returnsNonNilFirst(ret) {
+				issues = append(issues, "returns a tuple at "+w.InstrPos(ret)+" on a path whose last fetched row was deleted by this transaction")
+			}
+		}
+		lw.Run()
+		r.Floor("ErrSelfDeletedCase edges taken", nSD, 1)
+		if lw.Truncated {
+			r.Undecided("RangeScan.Next:own-deleted-row-not-emitted", "state space cap hit", "")
+			return
+		}
+		r.Check(len(issues) == 0, "RangeScan.Next:own-deleted-row-not-emitted", "after skipping a row deleted by the same transaction no tuple is returned without a new fetch", strings.Join(uniq(issues), "; "))
+	})
+}
